@@ -194,7 +194,15 @@ func (c *Ctx) errorSites(fd *ast.FuncDecl) []errSite {
 // package method taking one error and returning bool).
 func (c *Ctx) isStopPredicate(call *ast.CallExpr) bool {
 	f, ok := c.callee(call).(*types.Func)
-	if !ok || f.Pkg() != c.Types {
+	if !ok {
+		// the predicate handed in as a function value: a func(error) bool parameter of an unexported function
+		// every call site of which passes the stop predicate (as a method value)
+		if id, isId := unparen(call.Fun).(*ast.Ident); isId {
+			return c.paramAlwaysStopPredicate(c.objOf(id))
+		}
+		return false
+	}
+	if f.Pkg() != c.Types {
 		return false
 	}
 	sig := f.Type().(*types.Signature)
@@ -211,6 +219,12 @@ func (c *Ctx) errCheckKind(cond ast.Expr, errObj types.Object) string {
 	cond = unparen(cond)
 	switch x := cond.(type) {
 	case *ast.BinaryExpr:
+		// A && err == nil: inside the branch the error is nil
+		if x.Op == token.LAND {
+			if c.errCheckKind(x.X, errObj) == "nil" || c.errCheckKind(x.Y, errObj) == "nil" {
+				return "nil"
+			}
+		}
 		if x.Op == token.NEQ || x.Op == token.EQL {
 			for _, pr := range [][2]ast.Expr{{x.X, x.Y}, {x.Y, x.X}} {
 				if id, ok := unparen(pr[0]).(*ast.Ident); ok && c.objOf(id) == errObj && isNilIdent(c, pr[1]) {
@@ -369,4 +383,59 @@ func (c *Ctx) branchPropagates(fd *ast.FuncDecl, b *ast.BlockStmt, errObj types.
 		return true
 	})
 	return found, fwhy
+}
+
+// paramAlwaysStopPredicate: o is a func(error) bool parameter of a package function, and at every static call of
+// that function the argument in its position is a method value of the stop predicate.
+func (c *Ctx) paramAlwaysStopPredicate(o types.Object) bool {
+	v, ok := o.(*types.Var)
+	if !ok {
+		return false
+	}
+	sig, ok := v.Type().Underlying().(*types.Signature)
+	if !ok || sig.Params().Len() != 1 || sig.Results().Len() != 1 || !isErrorType(sig.Params().At(0).Type()) {
+		return false
+	}
+	var owner *ast.FuncDecl
+	idx := -1
+	for _, fd := range c.allFuncDecls() {
+		if i := c.paramIndex(fd, o); i >= 0 {
+			owner, idx = fd, i
+		}
+	}
+	if owner == nil {
+		return false
+	}
+	self, _ := c.Info.Defs[owner.Name].(*types.Func)
+	if self == nil || self.Exported() {
+		return false
+	}
+	sites, good := 0, true
+	for _, g := range c.allFuncDecls() {
+		if g.Body == nil {
+			continue
+		}
+		ast.Inspect(g.Body, func(n ast.Node) bool {
+			call, ok := n.(*ast.CallExpr)
+			if !ok || c.callee(call) != types.Object(self) {
+				return true
+			}
+			sites++
+			if idx >= len(call.Args) {
+				good = false
+				return true
+			}
+			se, isSel := unparen(call.Args[idx]).(*ast.SelectorExpr)
+			if !isSel {
+				good = false
+				return true
+			}
+			m, isM := c.Info.Uses[se.Sel].(*types.Func)
+			if !isM || !c.isStopPredicateFunc(m) {
+				good = false
+			}
+			return true
+		})
+	}
+	return good && sites > 0
 }
